@@ -288,8 +288,8 @@ def r5(ctx):
     for fb in fam:
         for bb, t in fb.calls("turmoil::host::Udp::is_multicast_loop_enabled"):
             at = Slicer(ctx.w).atoms(fb, t["args"][1])
-            from_src = sorted(a for a in at if re.match(r"arg:\d+:src@", a))
-            okm = not from_src and any(re.match(r"arg:\d+:dst@", a) or "destination_addresses" in a for a in at)
+            from_src = sorted(a for a in at if re.match(r"arg:\d+:src@", a) or a == "field:turmoil::net::udp::UdpSocket::local_addr")
+            okm = not from_src and any(re.match(r"arg:\d+:dst@", a) or "destination_addresses" in a or (re.match(r"arg:[2-9]:\w+@", a) and "{closure" in a.rsplit("@", 1)[-1]) for a in at)
             ctx.inst(R, "send:multicast-loop-option-of-the-member", okm, t["s"], "the member's own loop option decides its local copy" if okm else
                      "is_multicast_loop_enabled is asked about the *sending* socket's port: a member on the sender's host misses (or gets) the datagram according to an option "
                      "another socket set")
